@@ -233,6 +233,58 @@ func VerifC11_RoundTripSingle() {
 	rt.Reach("single-end")
 }
 
+// the list operand of "in": every entry is preserved exactly
+func VerifC11_InList() {
+	max := 2
+	if rt.Thorough() {
+		max = 3
+	}
+	n := rt.Len("entries", 0, max)
+	list := make([]string, n)
+	for i := range list {
+		v := rt.StrN("e"+string(rune('0'+i)), 0, 2)
+		rt.Assume(validUTF8(v))
+		for j := 0; j < len(v); j++ {
+			rt.Assume(v[j] != '\\')
+		}
+		list[i] = v
+	}
+	hasComma := false
+	for _, v := range list {
+		for j := 0; j < len(v); j++ {
+			hasComma = rt.Any(hasComma, v[j] == ',')
+		}
+	}
+	rt.Region("C11-in-list-fewer-than-two-entries", n < 2)
+	rt.Region("C11-in-list-entry-with-comma", hasComma)
+	q := New("t:p").Where(Where("l", In, list))
+	if _, err := q.Check(); err != nil {
+		// (a list the text form cannot carry may be refused by the check)
+		return
+	}
+	text := q.Print()
+	rt.ObserveStr("printed", text)
+	back, err := ParseQuery(text)
+	rt.Assert(err == nil, "inlist/parse-ok")
+	if err != nil {
+		return
+	}
+	sc, ok := back.where.(*stringSliceCondition)
+	rt.Assert(ok, "inlist/is-list-condition")
+	if ok {
+		rt.Assert(len(sc.value) == len(list), "inlist/entry-count")
+		if len(sc.value) == len(list) {
+			for i := range list {
+				rt.Assert(rt.EqStr(sc.value[i], list[i]), "inlist/entry-exact")
+			}
+		}
+	}
+	rt.Assert(rt.EqStr(back.Print(), text), "inlist/print-stable")
+	acc := &verifAcc{s: rt.StrN("acc.s", 0, 2), has: rt.Bool("acc.has")}
+	rt.Assert(back.MatchesAccessor(acc) == q.MatchesAccessor(acc), "inlist/matches-same-records")
+	rt.Reach("inlist-end")
+}
+
 func VerifC11_RoundTripGroups() {
 	a, b, c, d := Where("n", GreaterThan, 1), Where("s", SameAs, "x"), Where("b", Is, true), Where("e", Exists, nil)
 	var w Condition
@@ -258,6 +310,79 @@ func VerifC11_RoundTripGroups() {
 	}
 	roundTrip(q, "groups")
 	rt.Reach("groups-end")
+}
+
+// groups of zero or one condition, nested and negated
+func VerifC11_GroupShapes() {
+	a, b := Where("n", GreaterThan, 1), Where("s", SameAs, "x")
+	var w Condition
+	switch rt.Choice("shape", 12) {
+	case 0:
+		w = And(a)
+	case 1:
+		w = Or(a)
+	case 2:
+		w = And(And(a))
+	case 3:
+		w = Not(And(a))
+	case 4:
+		w = Not(Or(a))
+	case 5:
+		w = And()
+	case 6:
+		w = Or()
+	case 7:
+		w = And(a, And(b))
+	case 8:
+		w = Not(Not(And(a)))
+	case 9:
+		w = Or(And(a), b)
+	case 10:
+		w = And(a, Or())
+	case 11:
+		w = Not(And(Not(a)))
+	}
+	q := New("t:").Where(w)
+	if rt.Bool("tail") {
+		q.Limit(5)
+	}
+	if _, err := q.Check(); err != nil {
+		// (a group without conditions may be refused by the check)
+		return
+	}
+	roundTrip(q, "shapes")
+	rt.Reach("shapes-end")
+}
+
+// key prefix and order-by key are tokens of the text as well
+func VerifC11_PrefixOrderBy() {
+	prefix := rt.StrN("prefix", 0, 3)
+	rt.Assume(validUTF8(prefix))
+	key := rt.StrN("orderby", 0, 2)
+	rt.Assume(validUTF8(key))
+	q := New("t:" + prefix)
+	if len(key) > 0 {
+		q.OrderBy(key)
+	}
+	if rt.Bool("where") {
+		q.Where(Where("n", GreaterThan, 1))
+	}
+	if _, err := q.Check(); err != nil {
+		return
+	}
+	text := q.Print()
+	rt.ObserveStr("printed", text)
+	back, err := ParseQuery(text)
+	rt.Assert(err == nil, "prefix/parse-ok")
+	if err != nil {
+		return
+	}
+	rt.Assert(back.dbName == "t", "prefix/dbname")
+	rt.Assert(rt.EqStr(back.dbKeyPrefix, prefix), "prefix/prefix-exact")
+	rt.Assert(rt.EqStr(back.orderBy, key), "prefix/orderby-exact")
+	rt.Assert((back.where == nil) == (q.where == nil), "prefix/where-kept")
+	rt.Assert(rt.EqStr(back.Print(), text), "prefix/print-stable")
+	rt.Reach("prefix-end")
 }
 
 // ---- O4: the documented grammar is accepted; parser totality over token sequences ----
